@@ -26,7 +26,7 @@ CHECKS = {
           "each step must succeed or be a deliberate ValueError/TypeError refusal, RTLIL of the three elaborations must be identical and "
           "memory map / signature / public metadata unchanged. Bounded exploration of the configuration space."),
     note=("Deliberate refusal is recognised syntactically (innermost frame is a `raise` statement in amaranth_soc/amaranth raising the caught class). "
-          "Non-termination is observed as a 60 s watchdog or RecursionError. Hardware identity = RTLIL text identity.")),
+          "Non-termination is observed as a watchdog of 60 s CPU time or RecursionError. Hardware identity = RTLIL text identity.")),
  "C20": dict(
     design_ref="DESIGN.md section 4, C20",
     technique="property-based testing: wiring.connect() of complementary interfaces to generated components; signature round-trip/equality oracle from parameters",
